@@ -126,6 +126,9 @@ Inductive mode := Transaction | Session.
 Record plug := { pl_table_access : option (bool * list str);   (* enabled, tables *)
                  pl_query_logger : option bool }.              (* enabled *)
 
+(* config.rs AuthType *)
+Inductive auth := AuthMD5 | AuthTrust.
+
 Record user := {
   u_name : str;
   u_password : bool;                  (* password.is_some() *)
@@ -135,7 +138,10 @@ Record user := {
   u_idle_timeout : option Z;
   u_server_lifetime : option Z;
   u_pool_mode : option mode;
-  u_statement_timeout : Z }.
+  u_statement_timeout : Z;
+  u_auth_type : auth;                 (* how CLIENTS of this user are authenticated; default MD5 *)
+  u_server_username : bool;           (* server_username.is_some() *)
+  u_server_password : bool }.         (* server_password.is_some() *)
 
 Record pool := {
   p_name : str;
@@ -394,6 +400,11 @@ Definition builder_check (c : config) (p : pool) (u : user) : option panic :=
 Definition is_auth_query_configured (p : pool) : bool :=
   p_auth_query p && p_auth_user p && p_auth_password p.
 
+(* server.rs:466-469 and 538-560: what Server::startup can present when the server asks for a
+   password: server_password, else the user's password, else the hash auth_query fetched *)
+Definition has_secret (p : pool) (u : user) : bool :=
+  u_server_password u || u_password u || is_auth_query_configured p.
+
 (* pool.rs:415 AuthPassthrough::from_pool_config (auth_passthrough.rs:26-36): when
    is_auth_query_configured, unwrap auth_query, auth_query_user, auth_query_password *)
 Definition auth_check (p : pool) : option panic :=
@@ -629,7 +640,8 @@ Definition addr_t (a : address) :=
 Definition plug_t (x : plug) := (pl_table_access x, pl_query_logger x).
 Definition user_t (u : user) :=
   (u_name u, u_pool_size u, u_min_pool_size u, (u_pool_mode u, u_statement_timeout u),
-   (u_connect_timeout u, u_idle_timeout u, u_server_lifetime u)).
+   (u_connect_timeout u, u_idle_timeout u, u_server_lifetime u),
+   (u_auth_type u, u_password u, u_server_username u, u_server_password u)).
 Definition settings_t (bp : built) :=
   (bp_pool_mode bp, option_map plug_t (bp_plugins bp), user_t (bp_user_cfg bp),
    (bp_auto_key bp, bp_parser bp, bp_rw_split bp),
@@ -649,7 +661,7 @@ Inductive result :=
 | AcceptedBuilt (pools : list (str * str * (nat * nat * Z) * (dshard * option role * bool)
                                * list (list (str * Z * role * Z * nat * Z * list (str * Z * role * Z * nat * Z)))
                                * (mode * option (option (bool * list str) * option bool)
-                                  * (str * Z * option Z * (option mode * Z) * (option Z * option Z * option Z))
+                                  * (str * Z * option Z * (option mode * Z) * (option Z * option Z * option Z) * (auth * bool * bool * bool))
                                   * (option str * bool * bool)
                                   * option (Z * option Z * (Z * Z * Z))))).
 
